@@ -471,8 +471,9 @@ fn body(n: usize, complex: bool) -> BoxedStrategy<Case> {
         1 => Just("singular"),
         2 => Just("int"),
     ];
-    (kinds, vecn(nn), vecn(nn), vecn(n), vecn(n), proptest::collection::vec(0u8..10, nn..=nn), proptest::collection::vec(-8i32..=8, 2 * n..=2 * n), (0..n, 0..n, 1u32..14, any::<bool>()))
-        .prop_map(move |(kind, mut ar, mut ai, br, bi, mask, exps, (p, q, kexp, flag))| {
+    let shape = (0u8..8, proptest::collection::vec(0u8..10, n..=n), proptest::collection::vec(0u8..10, nn..=nn), 0usize..n);
+    (kinds, vecn(nn), vecn(nn), vecn(n), vecn(n), proptest::collection::vec(0u8..10, nn..=nn), proptest::collection::vec(-8i32..=8, 2 * n..=2 * n), (0..n, 0..n, 1u32..14, any::<bool>()), shape)
+        .prop_map(move |(kind, mut ar, mut ai, mut br, mut bi, mask, exps, (p, q, kexp, flag), (rhs_kind, bmask, pmask, bp))| {
             let mut struct_singular = false;
             match kind {
                 "iid" => {}
@@ -553,10 +554,78 @@ fn body(n: usize, complex: bool) -> BoxedStrategy<Case> {
                     *v = 0.0;
                 }
             }
-            let bi = if complex { bi } else { vec![0.0; n] };
+            let bi0 = if complex { std::mem::take(&mut bi) } else { vec![0.0; n] };
+            let mut bi = bi0;
+            shape_rhs(rhs_kind, &bmask, bp, complex, &mut br, &mut bi);
+            if complex && pmask[0] < 3 && matches!(kind, "iid" | "sparse" | "int") {
+                // entries that are purely real or purely imaginary (the complex routines branch on zero parts)
+                for k in 0..nn {
+                    if pmask[k] < 4 {
+                        ai[k] = 0.0;
+                    } else if pmask[k] >= 8 {
+                        ar[k] = 0.0;
+                    }
+                }
+            }
             Case { n, kind: kind.to_string(), complex, ar, ai, br, bi, mis: Mis::None, struct_singular }
         })
         .boxed()
+}
+
+/// "for all right-hand sides": besides dense random ones, right-hand sides with exact zeros -- sparse,
+/// unit vectors (the columns of an inverse), small integers, all zero, and for complex systems purely
+/// real or purely imaginary ones.  kind 0..=2 leave the dense vector unchanged.
+pub fn shape_rhs(kind: u8, bmask: &[u8], bp: usize, complex: bool, br: &mut [f64], bi: &mut [f64]) {
+    let n = br.len();
+    match kind {
+        3 => {
+            for i in 0..n {
+                if bmask[i] < 5 {
+                    br[i] = 0.0;
+                    bi[i] = 0.0;
+                }
+            }
+        }
+        4 => {
+            for i in 0..n {
+                if i != bp % n {
+                    br[i] = 0.0;
+                    bi[i] = 0.0;
+                }
+            }
+        }
+        5 => {
+            for i in 0..n {
+                br[i] = (br[i] * 2.49).round();
+                bi[i] = if complex { (bi[i] * 2.49).round() } else { 0.0 };
+            }
+        }
+        6 => {
+            for i in 0..n {
+                if complex {
+                    bi[i] = 0.0;
+                }
+                if bmask[i] < 3 {
+                    br[i] = 0.0;
+                }
+            }
+        }
+        7 => {
+            for i in 0..n {
+                if complex {
+                    br[i] = 0.0;
+                    if bmask[i] < 3 {
+                        bi[i] = 0.0;
+                    }
+                } else if bmask[0] < 2 {
+                    br[i] = 0.0; // all-zero right-hand side
+                } else if bmask[i] < 7 {
+                    br[i] = 0.0;
+                }
+            }
+        }
+        _ => {}
+    }
 }
 
 pub fn strategy() -> BoxedStrategy<Case> {
@@ -592,8 +661,18 @@ pub fn exhaustive(r: i32) -> Vec<Case> {
                 *e = vals[k % m];
                 k /= m;
             }
-            let br: Vec<f64> = (0..n).map(|i| 1.0 + i as f64 * 0.5).collect();
-            out.push(Case { n, kind: format!("int-exh{}", r), complex: false, ar, ai: vec![0.0; nn], br, bi: vec![0.0; n], mis: Mis::None, struct_singular: false });
+            // right-hand sides: one dense, every unit vector, one with a leading and one with a trailing zero
+            let mut rhss: Vec<Vec<f64>> = vec![(0..n).map(|i| 1.0 + i as f64 * 0.5).collect()];
+            for u in 0..n {
+                rhss.push((0..n).map(|i| if i == u { 1.0 } else { 0.0 }).collect());
+            }
+            if n >= 2 {
+                rhss.push((0..n).map(|i| if i == 0 { 0.0 } else { 1.0 + i as f64 }).collect());
+                rhss.push((0..n).map(|i| if i == n - 1 { 0.0 } else { 1.0 + i as f64 }).collect());
+            }
+            for br in rhss {
+                out.push(Case { n, kind: format!("int-exh{}", r), complex: false, ar: ar.clone(), ai: vec![0.0; nn], br, bi: vec![0.0; n], mis: Mis::None, struct_singular: false });
+            }
         }
     }
     out
